@@ -10,7 +10,19 @@ history of one node's clients is linearizable with the log order as witness); ow
 is needed.  TIED by the `rendezvous` engine: the REAL Manager.HandleCluster (clients over net.Pipe) and the REAL handleClusterCommits
 (hook H3) with the harness playing raft - proposals committed delayed, reordered across connections, in batches of random sizes, mixed
 with foreign and replayed entries, while clients pipeline - replayed on Rendezvous.next with Exec.exec as the state machine; every
-delivered reply is compared byte for byte (thorough tier: also under the race detector).  TIED to the code by the `apply` engine: random overlapping Ready batches (incl. batches that start
+delivered reply is compared byte for byte (thorough tier: also under the race detector).  CROSS-NODE COMPOSITION (Props/C07Multi.lean:
+the multi-node rendezvous model Cluster/Multi.lean on top of an L0 run; applied_agree, own_reply_cluster, real_time_cross_node,
+C07_linearizable_partial) TIED by the `multi` engine (harness/multi.go, vlib/multigen.py, Driver/Multi.lean): 2-3 REAL Manager
+instances in one process - each with its own keyspace, callback map, HandleCluster connections and handleClusterCommits loop - share ONE
+log the harness owns; clients on any node submit, the harness appends the proposals reordered across nodes and delayed, and hands the
+committed entries to every node independently (random batches, a laggard that catches up late); the compiled driver replays every event
+on Multi.next with Exec.exec as each node's state machine: the proposal ids the real code generated (uuid) are pairwise distinct
+cluster-wide (the hypothesis UniqueIds of own_reply_cluster is a CHECKED fact of every run), every reply is byte for byte the reply of
+the connection's OWN command at its OWN position of the shared log and arrives only after its node applied that entry, and every
+node's keyspace dump equals the model's replica at that node's applied prefix (same applied prefix => same keyspace).  HandleCluster
+offers no way to inject ids, so there is no scenario class with colliding ids; what the suite does with colliding ids was tested by
+mutating the repository (uuid replaced by a per-Manager counter: the check fails with a replay in which a client receives the reply of
+another node's command).  TIED to the code by the `apply` engine: random overlapping Ready batches (incl. batches that start
 beyond applied+1, which must be refused) through the REAL entriesToApply/publishEntries vs Apply.publish, and by fact F4 (incl. F4d: the
 wal.Save step of the Ready arm is unconditional).  The behavioural form of F4 - the real Ready loop of one node with the harness as its two
 peers; a vote is answered / an append acknowledged / an entry applied only when a restart would find it on disk; no two grants in one term
@@ -38,7 +50,7 @@ tier adds repeated and mixed partitions, 5 nodes, partition + kill, partition + 
 unknown-outcome commands may take effect at any later point or never); all nodes return the same value for every key at quiescence.
 Commands whose effect depends on the replica's clock or random source (relative TTLs, SPOP/SRANDMEMBER, XADD *) are kept out of the
 workload: each has its own minimal scenario and is a recorded known finding."""
-from .. import core, clustersuite, rendezvousgen
+from .. import core, clustersuite, rendezvousgen, multigen
 
 LEVEL = "proof"
 KNOWN_HERE = ["replicas-own-clock-ttl", "replicas-own-random-spop", "replicas-own-clock-xadd"]
@@ -54,9 +66,12 @@ def run(R, ctx):
     clustersuite.fact_f4(R, broken_is_violation=False)   # recorded here; C08 owns the persist-before-ack obligation
     clustersuite.apply_differential(R, ctx, binary, 3000 if R.tier == "quick" else 60000)
     rendezvousgen.run_suite(R, ctx, binary, 600 if R.tier == "quick" else 12000)
+    multigen.run_suite(R, ctx, binary, 300 if R.tier == "quick" else 6000)
     clustersuite.run_cluster(R, ctx, "C07", binary, known, KNOWN_HERE)
     R.rule = ("apply: a batch line is non-trivial when it publishes at least one entry. rendezvous: a line is non-trivial when at least one "
-              "committed proposal's reply reached its connection and was compared. cluster: a scenario is non-trivial when clients got "
+              "committed proposal's reply reached its connection and was compared. multi: a line is non-trivial when a reply of a committed "
+              "proposal was compared with the connection's own command at its own log position, or the keyspace dump of a node that has applied "
+              "at least one entry was compared. cluster: a scenario is non-trivial when clients got "
               "acknowledgements AND at least one fault was injected; evaluations = client commands issued (acknowledged + unknown outcome).")
     if ctx.broken and not R.violations:
         R.violation("proof-broken", dict(kind="proof-broken", broken=ctx.broken,
